@@ -123,15 +123,20 @@ def load_seeds():
     for sub in ("valid", "invalid"):
         for f in sorted(glob.glob("%s/%s/*.c" % (SEEDS, sub))):
             text = open(f).read()
+            flags = []
+            m = re.match(r"//@cc1:([^\n]*)\n", text)        # an option-carrying seed: extra cc1 options on the first line
+            if m:
+                import shlex
+                flags, text = shlex.split(m.group(1)), text[m.end():]
             toks = tokenize(text)
-            seeds.append(dict(name="%s-%s" % (sub[0], os.path.basename(f)[:-2]), valid=sub == "valid", text=text, toks=toks, path=f))
+            seeds.append(dict(name="%s-%s" % (sub[0], os.path.basename(f)[:-2]), valid=sub == "valid", text=text, toks=toks, path=f, flags=flags))
     if len(seeds) < 50:
         raise Infra("only %d seeds under %s" % (len(seeds), SEEDS))
     return seeds
 
 
 # ------------------------------------------------------------------ inputs
-def gen_edits(ctx, seeds, stride, pairstride, pairmax=6):
+def gen_edits(ctx, seeds, stride, pairstride, tailstride, pairmax=6):
     sf = os.path.join(ctx.scratch, "seedlens.ndjson")
     vt.write_ndjson(sf, [dict(n=len(s["toks"])) for s in seeds])
     out = os.path.join(ctx.scratch, "edits.ndjson")
@@ -139,7 +144,7 @@ def gen_edits(ctx, seeds, stride, pairstride, pairmax=6):
         os.unlink(out)
     pt = sorted(ALPHABET.index(t) + 1 for t in ("int", "x", "(", ")", "{", "}", ";"))
     cfg = ctx.cfg("robust", "Edits.cfg", NAlpha=len(ALPHABET), PairMax=pairmax, PairTok="{%s}" % ",".join(map(str, pt)),
-                  Seed=ctx.seed, Stride=stride, PairStride=pairstride)
+                  Seed=ctx.seed, Stride=stride, PairStride=pairstride, TailStride=tailstride, NDir=len(DIRS), NEnd=len(ENDS))
     g = ctx.tlc("robust", "Edits", cfg, env=dict(SEEDS=sf, OUT=out), workers=4, timeout=1500, heap="6g")
     if not g.ok:
         raise Infra("Edits.tla: %s\n%s" % (g.violated, g.trace_text()[:1500]))
@@ -150,11 +155,24 @@ def gen_edits(ctx, seeds, stride, pairstride, pairmax=6):
     return rows
 
 
-def text_of(seed, r):
-    return render([seed["toks"][j - 1] if j > 0 else ALPHABET[-j - 1] for j in r])
+# the byte-level end-of-file family (Edits.tla Tails): trailing directive lines and endings
+DIRS = ["#if 1\n#endif", "#pragma once", "#include <stddef.h>", "#define X", "#line 3", "#error x", "#undef X", "#ifdef X\n#else\n#endif"]
+ENDS = ["", "\n", "\\\n", "\\", "\r\n", "\r", "\\\r\n", " ", "/*", "//x", "\"", "'"]
 
 
-def edit_name(ed):
+def text_of(seed, r, tail=None):
+    t = render([seed["toks"][j - 1] if j > 0 else ALPHABET[-j - 1] for j in r])
+    if not tail or not tail["e"]:
+        return t
+    t = t[:-1]                       # render() closes with one newline
+    if tail["d"]:
+        t += "\n" + DIRS[tail["d"] - 1]
+    return t + ENDS[tail["e"] - 1]
+
+
+def edit_name(ed, tail=None):
+    if tail and tail["e"]:
+        return "tail%d.%d" % (tail["d"], tail["e"])
     return "+".join("%s%d%s" % (e["k"], e["i"], ".%d" % e["t"] if e["t"] else "") for e in ed)
 
 
@@ -180,13 +198,19 @@ def worker_main(jobfile):
     e.pop("CHIBICC_VERIF_TRACE", None)
     with open(jobfile + ".res", "w") as res:
         for j in spec["jobs"]:
+            flags = j.get("flags", [])
             if "text" in j:
                 f = "%s/i%d.c" % (d, j["id"])
-                open(f, "w").write(j["text"])
+                if "SELFNAME" in j["text"] or any("SELFNAME" in x for x in flags):
+                    # a self-including seed: SELFNAME is the input's own name (no dot: it is also stringized token by token)
+                    f = "%s/i%d" % (d, j["id"])
+                    j["text"] = j["text"].replace("SELFNAME", os.path.basename(f))
+                    flags = [x.replace("SELFNAME", os.path.basename(f)) for x in flags]
+                open(f, "w", newline="").write(j["text"])
             else:
                 f = j["path"]
             o, ef = "%s/o%d.s" % (d, j["id"]), "%s/e%d" % (d, j["id"])
-            cmd = [cc, "-cc1"] + j.get("flags", []) + ["-cc1-input", f, "-cc1-output", o, f]
+            cmd = [cc, "-cc1"] + flags + ["-cc1-input", f, "-cc1-output", o, f]
             with open(ef, "wb") as efh:
                 p = subprocess.Popen(cmd, cwd=d, env=e, stdin=subprocess.DEVNULL, stdout=subprocess.DEVNULL, stderr=efh, preexec_fn=pre)
                 try:
@@ -322,11 +346,17 @@ def gdb_site(ctx, tree, x, hang=False):
     d = ctx.tmp("gdb")
     h = hashlib.sha1((x.get("text") or x["path"]).encode()).hexdigest()[:12]
     f = x.get("path")
+    flags = x.get("flags", [])
     if "text" in x:
         f = "%s/g%s.c" % (d, h)
-        open(f, "w").write(x["text"])
+        txt = x["text"]
+        if "SELFNAME" in txt or any("SELFNAME" in y for y in flags):
+            f = "%s/g%s" % (d, h)
+            txt = txt.replace("SELFNAME", os.path.basename(f))
+            flags = [y.replace("SELFNAME", os.path.basename(f)) for y in flags]
+        open(f, "w", newline="").write(txt)
     tree_files = set(os.path.basename(p) for p in glob.glob(tree + "/*.c") + glob.glob(tree + "/*.h"))
-    args = [tree + "/chibicc", "-cc1"] + x.get("flags", []) + ["-cc1-input", f, "-cc1-output", "/dev/null", f]
+    args = [tree + "/chibicc", "-cc1"] + flags + ["-cc1-input", f, "-cc1-output", "/dev/null", f]
     if hang:
         script = ["-ex", "run", "-ex", "bt 40"]
         cmd = ["timeout", "-s", "INT", "3", "gdb", "-batch", "-nx"] + script + ["--args"] + args
@@ -430,6 +460,26 @@ def corpus_inputs(ctx, tree):
             for it in items if it["cls"] in ("own", "test", "layout", "expr")]
 
 
+def big_inputs():
+    """generated programs of the supported language with out-of-the-ordinary sizes (must be Accepted; gcc accepts each)"""
+    P = {}
+    P["long-string"] = 'char s[] = "' + "".join(chr(48 + (i * 7) % 43).replace("\\", "_") for i in range(65536)) + '";\nint n = sizeof s;\n'
+    P["long-expr"] = "int f(int a, int b) { return " + " + ".join("a * %d - (b ^ %d)" % (i, i) for i in range(1500)) + "; }\n"
+    P["deep-parens"] = "int f(int x) { return " + "(" * 400 + "x" + " + 1)" * 400 + "; }\n"
+    P["deep-blocks"] = "int f(int x) { " + "{ x++; " * 300 + "}" * 300 + " return x; }\n"
+    P["many-cases"] = "int f(int x) { switch (x) { " + " ".join("case %d: return %d;" % (i * 3, i) for i in range(2000)) + " } return -1; }\n"
+    P["many-globals"] = "".join("int g%d = %d;\n" % (i, i) for i in range(5000))
+    P["many-params"] = "int f(" + ", ".join("int p%d" % i for i in range(100)) + ") { return " + " + ".join("p%d" % i for i in range(100)) + "; }\nint g(void) { return f(" + ", ".join(str(i) for i in range(100)) + "); }\n"
+    P["long-identifier"] = "int %s = 1; int f(void) { return %s; }\n" % ("x" * 4000, "x" * 4000)
+    P["big-macro"] = "#define A x + 1 +\n#define B A A A A A A A A A A\n#define C B B B B B B B B B B\n#define D C C C C C C C C C C\nint f(int x) { return D D 0; }\n"
+    P["many-locals"] = "int f(void) { " + " ".join("long v%d = %d;" % (i, i) for i in range(3000)) + " return v2999; }\n"
+    P["long-initializer"] = "int a[] = { " + ", ".join(str(i) for i in range(20000)) + " };\n"
+    P["many-strings"] = "char *t[] = { " + ", ".join('"s%d"' % i for i in range(5000)) + " };\n"
+    P["else-if-chain"] = "int f(int x) { " + " else ".join("if (x == %d) return %d;" % (i, i) for i in range(800)) + " return 0; }\n"
+    P["many-functions"] = "".join("static int f%d(int a) { return a + %d; }\n" % (i, i) for i in range(1500)) + "int main(void) { return " + " + ".join("f%d(1)" % i for i in range(0, 1500, 50)) + "; }\n"
+    return [dict(name="big/" + k, text=v, must="accept", cls="big", seed="big/" + k, ed="id", flags=[]) for k, v in sorted(P.items())]
+
+
 def judge(ctx, tree, inputs, label):
     run_inputs(ctx, tree, inputs, label)
     ctx.phase("%s: %d inputs run" % (label, len(inputs)))
@@ -473,17 +523,21 @@ def run(ctx):
     th.start()
     tree = ctx.build()
     seeds = load_seeds()
-    rows = gen_edits(ctx, seeds, int(os.environ.get("C13_STRIDE", 24 if q else 1)), int(os.environ.get("C13_PAIRSTRIDE", 100 if q else 4)))
+    rows = gen_edits(ctx, seeds, int(os.environ.get("C13_STRIDE", 24 if q else 1)), int(os.environ.get("C13_PAIRSTRIDE", 100 if q else 4)),
+                     int(os.environ.get("C13_TAILSTRIDE", 8 if q else 1)))
     ctx.phase("edits enumerated (%d)" % len(rows))
     inputs = []
     for s in seeds:
-        inputs.append(dict(name=s["name"], text=render(s["toks"]), must="accept" if s["valid"] else "any", cls="seed", seed=s["name"], ed="id"))
+        inputs.append(dict(name=s["name"], text=render(s["toks"]), must="accept" if s["valid"] else "any", cls="seed", seed=s["name"], ed="id",
+                           flags=s["flags"]))
     for r in rows:
         s = seeds[r["s"] - 1]
         if len(r["ed"]) == 1 and apply_edit(s["toks"], r["ed"][0]) != [s["toks"][j - 1] if j > 0 else ALPHABET[-j - 1] for j in r["r"]]:
             raise Infra("harness apply_edit disagrees with Edits.tla Apply on %s" % r)
-        inputs.append(dict(name="%s~%s" % (s["name"], edit_name(r["ed"])), text=text_of(s, r["r"]), must="any", cls="edit", seed=s["name"], ed=r["ed"]))
+        inputs.append(dict(name="%s~%s" % (s["name"], edit_name(r["ed"], r.get("tail"))), text=text_of(s, r["r"], r.get("tail")), must="any",
+                           cls="edit", seed=s["name"], ed=r["ed"], flags=s["flags"]))
     inputs += corpus_inputs(ctx, tree)
+    inputs += big_inputs()
     control_events(ctx)
     rej = judge(ctx, tree, inputs, "main")
     for i, x in enumerate(inputs):
